@@ -3,7 +3,7 @@ import Enc.Lemmas.ProtoDecode
 /-!
 # C03, scalar level: the model's own decoder inverts the model's encoder, codec by codec
 
-For every scalar codec `c`: `decode (fuel+1) c (encode c v fl') cur fl = .ok (v, (encode c v fl').length)` whenever the
+For every scalar codec `c`: `decodeU (fuel+1) c (encode c v fl') cur fl = .ok (v, (encode c v fl').length)` whenever the
 encoder wrote something (`wantzero` or a non-zero value), the value is in the range of its Go kind, and encoder and
 decoder agree on the zigzag flag.  The only non-literal case is a nil `[]byte` written under `wantzero`
 (comes back as the empty non-nil slice).
@@ -88,104 +88,104 @@ theorem toNat_ofInt32 (i : Int) (h0 : 0 ≤ i) (h1 : i < (2:Int)^32) : ((BitVec.
 
 theorem decode_encode_bool (b : Bool) (fl' fl : Flags) (cur : Val) (fuel : Nat)
     (hw : (b || fl'.wantzero) = true) :
-    decode (fuel + 1) .bool (encode .bool (.bool b) fl') cur fl
+    decodeU (fuel + 1) .bool (encode .bool (.bool b) fl') cur fl
       = .ok (.bool b, (encode .bool (.bool b) fl').length) := by
-  simp only [encode, hw, if_true, decode]
+  simp only [encode, hw, if_true, decodeU]
   cases b <;> rfl
 
 /-- `int`, `int64` (Go `int` is 64 bit): any int64 value, plain or zigzag -/
 theorem decode_encode_int (c : Codec) (hc : c = .int ∨ c = .int64) (i : Int) (fl' fl : Flags) (cur : Val) (fuel : Nat)
     (hz : fl.zigzag = fl'.zigzag) (h1 : -(2:Int)^63 ≤ i) (h2 : i < (2:Int)^63)
     (hw : (i != 0 || fl'.wantzero) = true) :
-    decode (fuel + 1) c (encode c (.int i) fl') cur fl = .ok (.int i, (encode c (.int i) fl').length) := by
+    decodeU (fuel + 1) c (encode c (.int i) fl') cur fl = .ok (.int i, (encode c (.int i) fl').length) := by
   rcases hc with rfl | rfl <;>
-  · simp only [encode, hw, if_true, decode, decodeVarint_encode', Res.bind, i64_u64 fl fl' hz i h1 h2]
+  · simp only [encode, hw, if_true, decodeU, decodeVarint_encode', Res.bind, i64_u64 fl fl' hz i h1 h2]
 
 /-- `int32`: the value passes the decoder's range check -/
 theorem decode_encode_int32 (i : Int) (fl' fl : Flags) (cur : Val) (fuel : Nat)
     (hz : fl.zigzag = fl'.zigzag) (h1 : -(2:Int)^31 ≤ i) (h2 : i < (2:Int)^31)
     (hw : (i != 0 || fl'.wantzero) = true) :
-    decode (fuel + 1) .int32 (encode .int32 (.int i) fl') cur fl
+    decodeU (fuel + 1) .int32 (encode .int32 (.int i) fl') cur fl
       = .ok (.int i, (encode .int32 (.int i) fl').length) := by
   have h1' : -(2:Int)^63 ≤ i := by simp only [Int.reducePow] at h1 ⊢; omega
   have h2' : i < (2:Int)^63 := by simp only [Int.reducePow] at h2 ⊢; omega
   simp only [Int.reducePow] at h1 h2
   have hr : ¬ (i < -2147483648 ∨ i > 2147483647) := by omega
-  simp only [encode, hw, if_true, decode, decodeVarint_encode', i64_u64 fl fl' hz i h1' h2', hr, if_false]
+  simp only [encode, hw, if_true, decodeU, decodeVarint_encode', i64_u64 fl fl' hz i h1' h2', hr, if_false]
 
 /-- `uint`, `uint64` -/
 theorem decode_encode_uint (c : Codec) (hc : c = .uint ∨ c = .uint64) (i : Int) (fl' fl : Flags) (cur : Val)
     (fuel : Nat) (h0 : 0 ≤ i) (h1 : i < (2:Int)^64) (hw : (i != 0 || fl'.wantzero) = true) :
-    decode (fuel + 1) c (encode c (.int i) fl') cur fl = .ok (.int i, (encode c (.int i) fl').length) := by
+    decodeU (fuel + 1) c (encode c (.int i) fl') cur fl = .ok (.int i, (encode c (.int i) fl').length) := by
   rcases hc with rfl | rfl <;>
-  · simp only [encode, hw, if_true, decode, decodeVarint_encode', Res.bind, toNat_ofInt64 i h0 h1]
+  · simp only [encode, hw, if_true, decodeU, decodeVarint_encode', Res.bind, toNat_ofInt64 i h0 h1]
 
 theorem decode_encode_uint32 (i : Int) (fl' fl : Flags) (cur : Val) (fuel : Nat)
     (h0 : 0 ≤ i) (h1 : i < (2:Int)^32) (hw : (i != 0 || fl'.wantzero) = true) :
-    decode (fuel + 1) .uint32 (encode .uint32 (.int i) fl') cur fl
+    decodeU (fuel + 1) .uint32 (encode .uint32 (.int i) fl') cur fl
       = .ok (.int i, (encode .uint32 (.int i) fl').length) := by
   have h1' : i < (2:Int)^64 := by simp only [Int.reducePow] at h1 ⊢; omega
   have hr : ¬ (BitVec.ofInt 64 i).toNat > 4294967295 := by
     rw [ofInt64_toNat i h0 h1']; simp only [Int.reducePow] at h1; omega
-  simp only [encode, hw, if_true, decode, decodeVarint_encode', Res.bind, hr, if_false, toNat_ofInt64 i h0 h1']
+  simp only [encode, hw, if_true, decodeU, decodeVarint_encode', Res.bind, hr, if_false, toNat_ofInt64 i h0 h1']
 
 theorem decode_encode_fixed32 (i : Int) (fl' fl : Flags) (cur : Val) (fuel : Nat)
     (h0 : 0 ≤ i) (h1 : i < (2:Int)^32) (hw : (i != 0 || fl'.wantzero) = true) :
-    decode (fuel + 1) .fixed32 (encode .fixed32 (.int i) fl') cur fl
+    decodeU (fuel + 1) .fixed32 (encode .fixed32 (.int i) fl') cur fl
       = .ok (.int i, (encode .fixed32 (.int i) fl').length) := by
   have := unLE32_le32 (BitVec.ofInt 32 i) []
   rw [List.append_nil] at this
-  simp only [encode, hw, if_true, decode, this, toNat_ofInt32 i h0 h1, Lemmas.Proto.le32_length]
+  simp only [encode, hw, if_true, decodeU, this, toNat_ofInt32 i h0 h1, Lemmas.Proto.le32_length]
 
 theorem decode_encode_fixed64 (i : Int) (fl' fl : Flags) (cur : Val) (fuel : Nat)
     (h0 : 0 ≤ i) (h1 : i < (2:Int)^64) (hw : (i != 0 || fl'.wantzero) = true) :
-    decode (fuel + 1) .fixed64 (encode .fixed64 (.int i) fl') cur fl
+    decodeU (fuel + 1) .fixed64 (encode .fixed64 (.int i) fl') cur fl
       = .ok (.int i, (encode .fixed64 (.int i) fl').length) := by
   have := unLE64_le64 (BitVec.ofInt 64 i) []
   rw [List.append_nil] at this
-  simp only [encode, hw, if_true, decode, this, toNat_ofInt64 i h0 h1, Lemmas.Proto.le64_length]
+  simp only [encode, hw, if_true, decodeU, this, toNat_ofInt64 i h0 h1, Lemmas.Proto.le64_length]
 
 /-- sfixed32 (`int32` tagged `fixed32`): four bytes of two's complement, read back signed:
 `(BitVec.ofInt 32 i).toInt = i` on the int32 range -/
 theorem decode_encode_sfixed32 (i : Int) (fl' fl : Flags) (cur : Val) (fuel : Nat)
     (h1 : -(2:Int)^31 ≤ i) (h2 : i < (2:Int)^31) (hw : (i != 0 || fl'.wantzero) = true) :
-    decode (fuel + 1) .sfixed32 (encode .sfixed32 (.int i) fl') cur fl
+    decodeU (fuel + 1) .sfixed32 (encode .sfixed32 (.int i) fl') cur fl
       = .ok (.int i, (encode .sfixed32 (.int i) fl').length) := by
   have := unLE32_le32 (BitVec.ofInt 32 i) []
   rw [List.append_nil] at this
   have hi : (BitVec.ofInt 32 i).toInt = i := BitVec.toInt_ofInt_eq_self (by decide) h1 h2
-  simp only [encode, hw, if_true, decode, this, hi, Lemmas.Proto.le32_length]
+  simp only [encode, hw, if_true, decodeU, this, hi, Lemmas.Proto.le32_length]
 
 /-- sfixed64 (`int64` tagged `fixed64`) -/
 theorem decode_encode_sfixed64 (i : Int) (fl' fl : Flags) (cur : Val) (fuel : Nat)
     (h1 : -(2:Int)^63 ≤ i) (h2 : i < (2:Int)^63) (hw : (i != 0 || fl'.wantzero) = true) :
-    decode (fuel + 1) .sfixed64 (encode .sfixed64 (.int i) fl') cur fl
+    decodeU (fuel + 1) .sfixed64 (encode .sfixed64 (.int i) fl') cur fl
       = .ok (.int i, (encode .sfixed64 (.int i) fl').length) := by
   have := unLE64_le64 (BitVec.ofInt 64 i) []
   rw [List.append_nil] at this
   have hi : (BitVec.ofInt 64 i).toInt = i := BitVec.toInt_ofInt_eq_self (by decide) h1 h2
-  simp only [encode, hw, if_true, decode, this, hi, Lemmas.Proto.le64_length]
+  simp only [encode, hw, if_true, decodeU, this, hi, Lemmas.Proto.le64_length]
 
 /-- concrete instance: −5 as sfixed32 -/
-example : decode 1 .sfixed32 (encode .sfixed32 (.int (-5)) {}) (.int 0) {}
+example : decodeU 1 .sfixed32 (encode .sfixed32 (.int (-5)) {}) (.int 0) {}
     = .ok (.int (-5), (encode .sfixed32 (.int (-5)) {}).length) :=
   decode_encode_sfixed32 (-5) {} {} _ 0 (by decide) (by decide) rfl
 
 theorem decode_encode_float32 (b : Nat) (fl' fl : Flags) (cur : Val) (fuel : Nat)
     (hb : b < 2 ^ 32) (hw : (b != 0 || fl'.wantzero) = true) :
-    decode (fuel + 1) .float32 (encode .float32 (.float b) fl') cur fl
+    decodeU (fuel + 1) .float32 (encode .float32 (.float b) fl') cur fl
       = .ok (.float b, (encode .float32 (.float b) fl').length) := by
   have := unLE32_le32 (BitVec.ofNat 32 b) []
   rw [List.append_nil] at this
-  simp only [encode, hw, if_true, decode, this, BitVec.toNat_ofNat, Nat.mod_eq_of_lt hb, Lemmas.Proto.le32_length]
+  simp only [encode, hw, if_true, decodeU, this, BitVec.toNat_ofNat, Nat.mod_eq_of_lt hb, Lemmas.Proto.le32_length]
 
 theorem decode_encode_float64 (b : Nat) (fl' fl : Flags) (cur : Val) (fuel : Nat)
     (hb : b < 2 ^ 64) (hw : (b != 0 || fl'.wantzero) = true) :
-    decode (fuel + 1) .float64 (encode .float64 (.float b) fl') cur fl
+    decodeU (fuel + 1) .float64 (encode .float64 (.float b) fl') cur fl
       = .ok (.float b, (encode .float64 (.float b) fl').length) := by
   have := unLE64_le64 (BitVec.ofNat 64 b) []
   rw [List.append_nil] at this
-  simp only [encode, hw, if_true, decode, this, BitVec.toNat_ofNat, Nat.mod_eq_of_lt hb, Lemmas.Proto.le64_length]
+  simp only [encode, hw, if_true, decodeU, this, BitVec.toNat_ofNat, Nat.mod_eq_of_lt hb, Lemmas.Proto.le64_length]
 
 theorem decodeVarlen_chunk' (s : Bytes) (hs : s.length < 2 ^ 64) :
     decodeVarlen (encodeVarint (BitVec.ofNat 64 s.length) ++ s)
@@ -195,22 +195,22 @@ theorem decodeVarlen_chunk' (s : Bytes) (hs : s.length < 2 ^ 64) :
 
 theorem decode_encode_string (s : Bytes) (fl' fl : Flags) (cur : Val) (fuel : Nat)
     (hs : s.length < 2 ^ 64) (hw : (!s.isEmpty || fl'.wantzero) = true) :
-    decode (fuel + 1) .string (encode .string (.str s) fl') cur fl
+    decodeU (fuel + 1) .string (encode .string (.str s) fl') cur fl
       = .ok (.str s, (encode .string (.str s) fl').length) := by
-  simp only [encode, hw, if_true, decode, decodeVarlen_chunk' s hs, Res.bind]
+  simp only [encode, hw, if_true, decodeU, decodeVarlen_chunk' s hs, Res.bind]
 
 /-- a non-nil `[]byte` is always written, also when empty -/
 theorem decode_encode_bytes (s : Bytes) (fl' fl : Flags) (cur : Val) (fuel : Nat) (hs : s.length < 2 ^ 64) :
-    decode (fuel + 1) .bytes (encode .bytes (.str s) fl') cur fl
+    decodeU (fuel + 1) .bytes (encode .bytes (.str s) fl') cur fl
       = .ok (.str s, (encode .bytes (.str s) fl').length) := by
-  simp only [encode, decode, decodeVarlen_chunk' s hs, Res.bind]
+  simp only [encode, decodeU, decodeVarlen_chunk' s hs, Res.bind]
 
 /-- a nil `[]byte` forced onto the wire (`wantzero`) comes back as the empty, non-nil slice -/
 theorem decode_encode_bytes_nil (fl' fl : Flags) (cur : Val) (fuel : Nat) (hw : fl'.wantzero = true) :
-    decode (fuel + 1) .bytes (encode .bytes .nil fl') cur fl = .ok (.str [], (encode .bytes .nil fl').length) := by
+    decodeU (fuel + 1) .bytes (encode .bytes .nil fl') cur fl = .ok (.str [], (encode .bytes .nil fl').length) := by
   have := decodeVarlen_chunk' [] (by simp)
   simp only [List.length_nil, List.append_nil] at this
-  simp only [encode, hw, if_true, decode, this, Res.bind]
+  simp only [encode, hw, if_true, decodeU, this, Res.bind]
 
 /-! ### codecs outside the message universe of `ProtoWireRec` (for completeness) -/
 
@@ -220,18 +220,18 @@ theorem fixLen_self (s : Bytes) : fixLen s.length s = s := by
 /-- `[n]byte` (contents of exactly `n` bytes): written unless all zero (or `wantzero`), read back as is -/
 theorem decode_encode_byteArray (s : Bytes) (fl' fl : Flags) (cur : Val) (fuel : Nat)
     (hs : s.length < 2 ^ 64) (hw : (fl'.wantzero || !isZeroBytes s) = true) :
-    decode (fuel + 1) (.byteArray s.length) (encode (.byteArray s.length) (.str s) fl') cur fl
+    decodeU (fuel + 1) (.byteArray s.length) (encode (.byteArray s.length) (.str s) fl') cur fl
       = .ok (.str s, (encode (.byteArray s.length) (.str s) fl').length) := by
-  simp only [encode, hw, if_true, decode, fixLen_self, decodeVarlen_chunk' s hs, Res.bind, Nat.lt_irrefl, if_false,
+  simp only [encode, hw, if_true, decodeU, fixLen_self, decodeVarlen_chunk' s hs, Res.bind, Nat.lt_irrefl, if_false,
     List.take_length]
 
 /-- a `proto.Message` implementation (`RawMessage`): length-delimited inside a message, raw at top level -/
 theorem decode_encode_message (s : Bytes) (fl' fl : Flags) (cur : Val) (fuel : Nat)
     (hs : s.length < 2 ^ 64) (ht : fl.toplevel = fl'.toplevel) :
-    decode (fuel + 1) .message (encode .message (.str s) fl') cur fl
+    decodeU (fuel + 1) .message (encode .message (.str s) fl') cur fl
       = .ok (.str s, (encode .message (.str s) fl').length) := by
   cases h : fl'.toplevel
-  · simp only [encode, decode, ht, h, Bool.false_eq_true, if_false, decodeVarlen_chunk' s hs, Res.bind]
-  · simp only [encode, decode, ht, h, if_true]
+  · simp only [encode, decodeU, ht, h, Bool.false_eq_true, if_false, decodeVarlen_chunk' s hs, Res.bind]
+  · simp only [encode, decodeU, ht, h, if_true]
 
 end Enc.Lemmas.ProtoRoundTrip
